@@ -23,7 +23,10 @@ type c07Case struct {
 	Tight   bool // cloud max leaves room for exactly one more node
 	// Taint describes the tainted nodes' state: fresh (tainted 1q ago) | expired (5q ago, past the hard
 	// grace period) | annotated (fresh, the newest one carries the no-delete annotation) | noexecute /
-	// prefer (the group's taint_effect is NoExecute / PreferNoSchedule and the taints carry it)
+	// prefer (the group's taint_effect is NoExecute / PreferNoSchedule and the taints carry it) |
+	// busy-old (fresh; the oldest tainted node still runs a pod, the newer ones are idle) |
+	// maxnodes-at-count (fresh; max_nodes equals the number of registered nodes, so that room appears
+	// only through the force-tainted nodes removed earlier in the scan)
 	Taint string
 }
 
@@ -67,6 +70,8 @@ func c07Build(p c07Case) *h.Scenario {
 		g.Opts.TaintEffect = v1.TaintEffectNoExecute
 	case "prefer":
 		g.Opts.TaintEffect = v1.TaintEffectPreferNoSchedule
+	case "maxnodes-at-count":
+		g.Opts.MaxNodes = p.U + p.T + p.F
 	}
 	return &h.Scenario{
 		Name:             p.name(),
@@ -133,6 +138,17 @@ func c07Build(p c07Case) *h.Scenario {
 				}
 				hh.W.AddNode(a, o)
 			}
+			if p.Taint == "busy-old" {
+				var oldest *v1.Node
+				for _, n := range hh.W.Nodes {
+					if _, t := h.HasTaint(n, h.TaintKey); t && (oldest == nil || n.CreationTimestamp.Time.Before(oldest.CreationTimestamp.Time)) {
+						oldest = n
+					}
+				}
+				if oldest != nil {
+					hh.W.AddPod(podOn(g, oldest.Name, 50))
+				}
+			}
 			if p.Mode == "up" {
 				// requests chosen so that the minimal sufficient node count is exactly U+N
 				hh.W.AddPod(podOn(g, "", int64(700*(p.U+p.N))))
@@ -173,7 +189,8 @@ func c07Cases(tier string) []c07Case {
 										out = append(out, c07Case{u, t, f, pat, ord, mode, n, fleet, tight, "fresh"})
 										if t > 0 && pat == "asc" && ord == "ut" && !fleet {
 											out = append(out, c07Case{u, t, f, pat, ord, mode, n, fleet, tight, "expired"}, c07Case{u, t, f, pat, ord, mode, n, fleet, tight, "annotated"},
-												c07Case{u, t, f, pat, ord, mode, n, fleet, tight, "noexecute"}, c07Case{u, t, f, pat, ord, mode, n, fleet, tight, "prefer"})
+												c07Case{u, t, f, pat, ord, mode, n, fleet, tight, "noexecute"}, c07Case{u, t, f, pat, ord, mode, n, fleet, tight, "prefer"},
+												c07Case{u, t, f, pat, ord, mode, n, fleet, tight, "busy-old"}, c07Case{u, t, f, pat, ord, mode, n, fleet, tight, "maxnodes-at-count"})
 										}
 									}
 								}
